@@ -2782,7 +2782,8 @@ class TrackFragmentRunBox(FullBox):
         w = FieldWriter(self, dest)
         w.write('I', 'sample_count')
         if self.flags & self.data_offset_present:
-            w.write('I', 'data_offset')
+            # data_offset is a signed int(32) (ISO/IEC 14496-12 8.8.8)
+            w.write('i', 'data_offset')
         if self.flags & self.first_sample_flags_present:
             w.write('I', 'first_sample_flags')
 
